@@ -457,6 +457,33 @@ def main():
         v.append("(* libmcount/wrap.c:dlopen - is the clock (mcount_gettime) read before real_dlopen() is called? *)")
         v.append("Definition wrap_dlopen_clock_first : bool := %s.\n"
                  % ("true" if call_order(fn, "mcount_gettime", "real_dlopen") else "false"))
+        # is dlopen_depth decremented after real_dlopen() and before the first return that follows it?
+        order, pos = [0], {"call": None, "dec": [], "ret": []}
+
+        def walk_depth(n):
+            order[0] += 1
+            k = n.get("kind")
+            if k == "CallExpr" and n.get("inner"):
+                c = n["inner"][0]
+                while c.get("kind") in ("ImplicitCastExpr", "ParenExpr") and c.get("inner"):
+                    c = c["inner"][0]
+                if c.get("referencedDecl", {}).get("name") == "real_dlopen":
+                    pos["call"] = order[0]
+            if k == "UnaryOperator" and n.get("opcode") == "--" and "dlopen_depth" in json.dumps(n):
+                pos["dec"].append(order[0])
+            if k == "ReturnStmt":
+                pos["ret"].append(order[0])
+            for c in n.get("inner", []) or []:
+                if isinstance(c, dict):
+                    walk_depth(c)
+        walk_depth(fn)
+        uses_depth = "dlopen_depth" in json.dumps(fn)
+        rets_after = [r for r in pos["ret"] if pos["call"] is not None and r > pos["call"]]
+        if pos["call"] is None or not rets_after:
+            raise Unsupported("dlopen: no real_dlopen() call followed by a return")
+        balanced = (not uses_depth) or any(pos["call"] < d < rets_after[0] for d in pos["dec"])
+        v.append("(* libmcount/wrap.c:dlopen - is dlopen_depth decremented between real_dlopen() and the first return after it? *)")
+        v.append("Definition wrap_dlopen_depth_balanced : bool := %s.\n" % ("true" if balanced else "false"))
         fn = ast_of("libmcount/wrap.c", "dlopen_base_callback")
         has_filter = [0]
 
